@@ -100,7 +100,9 @@ impl World {
             certs: cert_alphabet(),
             change: base_addr(3, 1),
             byron_attrs: vec![0xa0],
-            datums: vec![PlutusData::new_integer(&BigInt::from(7u64)), PlutusData::new_bytes(vec![0xd0; 70]), PlutusData::new_integer(&BigInt::from(7u64))],
+            // [0] and [2]: the same value with the same bytes; [3]: the same value decoded from a
+            // non-minimal encoding (PlutusData keeps its original bytes: a different datum hash)
+            datums: vec![PlutusData::new_integer(&BigInt::from(7u64)), PlutusData::new_bytes(vec![0xd0; 70]), PlutusData::new_integer(&BigInt::from(7u64)), PlutusData::from_bytes(vec![0x18, 0x07]).unwrap()],
             cost_models: Costmdls::new(),
             cost_lists: BTreeMap::new(),
         };
@@ -225,7 +227,7 @@ pub enum Op {
     Fee(usize),
     Coll(usize),
     ReqSigner(usize),
-    /// explicit reference input: 0 = outpoint 13 (no script), 1 = outpoint 14 with a 30_000-byte script, 2 = same outpoint as UTxO 0
+    /// explicit reference input: 0 = outpoint 13 (no script), 1 = outpoint 14 with a 30_000-byte script, 2 = same outpoint as UTxO 0, 3 = UTxO 1 declared to carry a 20_000-byte script
     RefIn(usize),
     /// 0: DRep key3, 1: CC hot key1, 2: SPO key2, 3: CC hot script (native 0), 4: DRep script plutus
     Vote(usize),
@@ -597,6 +599,8 @@ pub fn setup(w: &World, st: &St, params: &Params) -> Result<TransactionBuilder, 
         match r {
             0 => tb.add_reference_input(&op_outpoint(13)),
             1 => tb.add_script_reference_input(&op_outpoint(14), 30_000),
+            // the caller knows that UTxO 1 carries a 20 000-byte reference script and declares it
+            3 => tb.add_script_reference_input(&op_outpoint(1), 20_000),
             _ => tb.add_reference_input(&op_outpoint(0)),
         }
     }
@@ -767,7 +771,7 @@ pub fn needed_signers(w: &World, st: &St, t: &PTx) -> Result<Needed, String> {
 
 /// total size of reference scripts the ledger charges for: distinct outpoints among inputs and
 /// reference inputs that hold a script (sizes as declared by the scenario's table)
-pub fn ref_script_total(t: &PTx) -> u64 {
+pub fn ref_script_total(t: &PTx, st: &St) -> u64 {
     let mut seen: BTreeSet<(Vec<u8>, u64)> = BTreeSet::new();
     let mut total = 0u64;
     for op in t.inputs.iter().chain(t.reference_inputs.iter()) {
@@ -780,6 +784,8 @@ pub fn ref_script_total(t: &PTx) -> u64 {
             total += 40;
         } else if *op == op_outpoint_key(14) {
             total += 30_000;
+        } else if *op == op_outpoint_key(1) && st.m.ref_inputs.contains(&3) {
+            total += 20_000;
         }
     }
     total
@@ -799,18 +805,18 @@ pub fn ops_for(prop: &str) -> Vec<Op> {
             Op::Out(0), Op::Out(1), Op::Out(2), Op::Out(3), Op::Out(4),
             Op::Cert(0), Op::Cert(1), Op::Cert(2), Op::Cert(3), Op::Cert(7), Op::Cert(8), Op::Cert(13), Op::Cert(15), Op::Cert(20),
             Op::Wd(0), Op::Wd(2), Op::Mint(0), Op::Mint(1), Op::Mint(3), Op::Proposal(0), Op::Donate,
-            Op::Fee(0), Op::Fee(1), Op::Fee(2), Op::Fee(3), Op::Coll(1), Op::Meta,
+            Op::Fee(0), Op::Fee(1), Op::Fee(2), Op::Fee(3), Op::Coll(1), Op::Meta, Op::RefIn(1), Op::RefIn(3),
         ],
         "C18" | "C16" => vec![
             Op::In(0, 0), Op::In(2, 0), Op::In(1, 0), Op::In(5, 0), Op::In(6, 0), Op::In(6, 1), Op::In(10, 0), Op::In(7, 0), Op::In(7, 1), Op::In(11, 0), Op::In(8, 0),
             Op::Out(0), Op::Coll(1), Op::Coll(0), Op::Cert(5), Op::Cert(7), Op::Cert(8), Op::Cert(6), Op::Cert(13), Op::Cert(25),
             Op::Wd(0), Op::Wd(1), Op::Wd(3), Op::Vote(0), Op::Vote(1), Op::Vote(2), Op::Vote(3), Op::Vote(4),
-            Op::Mint(0), Op::Mint(2), Op::ReqSigner(3), Op::ReqSigner(0), Op::RefIn(0), Op::RefIn(1), Op::RefIn(2), Op::ExtraDatum(0), Op::ExtraDatum(1), Op::Meta,
+            Op::Mint(0), Op::Mint(2), Op::ReqSigner(3), Op::ReqSigner(0), Op::RefIn(0), Op::RefIn(1), Op::RefIn(2), Op::ExtraDatum(0), Op::ExtraDatum(1), Op::ExtraDatum(3), Op::Meta,
         ],
         "C09" | "C10" => vec![
             Op::In(0, 0), Op::In(7, 0), Op::In(7, 1), Op::In(8, 0), Op::In(11, 0), Op::In(6, 0), Op::In(2, 0),
             Op::Mint(0), Op::Mint(2), Op::Cert(25), Op::Cert(5), Op::Cert(26), Op::Cert(16), Op::Wd(0), Op::Wd(1), Op::Wd(3), Op::Vote(1), Op::Vote(3), Op::Vote(4),
-            Op::ExtraDatum(0), Op::ExtraDatum(1), Op::ExtraDatum(2), Op::Meta, Op::Out(0),
+            Op::ExtraDatum(0), Op::ExtraDatum(1), Op::ExtraDatum(3), Op::Meta, Op::Out(0),
         ],
         _ => vec![],
     }
@@ -833,9 +839,9 @@ pub fn configs_for(prop: &str, tier: Tier) -> Vec<usize> {
     match prop {
         "C05" | "C06" | "C07" | "C03" => {
             if tier.thorough() {
-                vec![0, 1, 2, 3, 4]
+                vec![0, 1, 2, 3, 4, 5]
             } else {
-                vec![0, 1, 2, 3]
+                vec![0, 1, 2, 3, 5]
             }
         }
         "C18" | "C16" => vec![0, 5],
